@@ -481,12 +481,15 @@ class Interp:
             return cache[k]
         cache[k] = None
         node = mod.constants.get(name)
-        if not isinstance(node, ast.Call):
-            return None
-        dn = self.repo.dotted(mod, node.func)
-        f = self.repo.lookup(dn) if dn and dn.startswith("pykdebugparser.") else None
-        if not f or f[0] != "func":
-            return None
+        if isinstance(node, ast.Dict) and any(k_ is None for k_ in node.keys):
+            pass                    # {'A': f, **{...}, 'B': g}: evaluated below
+        else:
+            if not isinstance(node, ast.Call):
+                return None
+            dn = self.repo.dotted(mod, node.func)
+            f = self.repo.lookup(dn) if dn and dn.startswith("pykdebugparser.") else None
+            if not f or f[0] != "func":
+                return None
         stores = 0
         for x in ast.walk(mod.tree):
             if isinstance(x, ast.Name) and x.id == name and isinstance(x.ctx, ast.Store):
@@ -931,6 +934,52 @@ def _reached_object(t: "T") -> bool:
     return False
 
 
+def _never_none(t: "T", depth: int = 0) -> bool:
+    """A container value whatever path built it: a literal, a mutated literal, a conditional / loop-carried value whose every
+    alternative is one."""
+    if depth > 12:
+        return False
+    if t.op in ("list", "dict", "set", "tuple", "comp", "fstr", "new"):
+        return True
+    if t.op == "mut":
+        return _never_none(t.a[0], depth + 1)
+    if t.op == "ite":
+        return _never_none(t.a[1], depth + 1) and _never_none(t.a[2], depth + 1)
+    if t.op == "widen" and t.a[2]:
+        return all((c.op == "widen" and c.a[:2] == t.a[:2]) or _never_none(c, depth + 1) for c in t.a[2])
+    if t.op == "bin" and t.a[0] == "+":
+        return _never_none(t.a[1], depth + 1) or _never_none(t.a[2], depth + 1)
+    return False
+
+
+def _container_kind(t: "T", depth: int = 0):
+    """'list' / 'dict' / ... when every alternative of the value is a container of that kind, else None."""
+    if depth > 12:
+        return None
+    if t.op in ("list", "dict", "set", "tuple"):
+        return t.op
+    if t.op == "comp":
+        return {"list": "list", "set": "set", "dict": "dict"}.get(t.a[0])
+    if t.op == "mut":
+        return _container_kind(t.a[0], depth + 1)
+    if t.op == "ite":
+        a, b = _container_kind(t.a[1], depth + 1), _container_kind(t.a[2], depth + 1)
+        return a if a == b else None
+    if t.op == "widen" and t.a[2]:
+        ks = {_container_kind(c, depth + 1) for c in t.a[2] if not (c.op == "widen" and c.a[:2] == t.a[:2])}
+        return ks.pop() if len(ks) == 1 else None
+    if t.op == "bin" and t.a[0] == "+":
+        a, b = _container_kind(t.a[1], depth + 1), _container_kind(t.a[2], depth + 1)
+        return a if a == b or b is None else (b if a is None else None)
+    return None
+
+
+def _is_record_word(t: "T") -> bool:
+    """events[i].values[k] / event.values[k] with a constant k"""
+    return t.op == "sub" and t.a[0].op == "attr" and t.a[0].a[1] == "values" and t.a[1].op == "const" \
+        and isinstance(t.a[1].a[0], int) and t.a[0].a[0].op in ("sub", "elem", "param", "bound")
+
+
 def _const_tree(t: "T") -> bool:
     if t.op in ("const", "class", "func", "builtin"):  # (enum members are not: loops over members are judged as loops, C11)
         return True
@@ -946,6 +995,18 @@ def unrollable(node: ast.For) -> bool:
             or not all(_literal_seq(e) for e in node.iter.elts) or node.orelse:
         return False
     return _unrollable_body(node)
+
+
+def _subst_names(node, defs: dict):
+    """A copy of the AST with every load of a name in defs replaced by (a copy of) its defining expression."""
+    import copy
+
+    class _S(ast.NodeTransformer):
+        def visit_Name(self, n):
+            if isinstance(n.ctx, ast.Load) and n.id in defs:
+                return ast.copy_location(copy.deepcopy(defs[n.id]), n)
+            return n
+    return ast.fix_missing_locations(_S().visit(copy.deepcopy(node)))
 
 
 def _helper_row(mod, node) -> bool:
@@ -1499,12 +1560,51 @@ class _Frame:
         carried = self._assigned_names(body, st.env)
         init = {}
         heap_init = dict(st.heap)
+        # fields of a carried helper object that every iteration leaves as they were (`reader = Reader(header=1)` built anew
+        # with the same arguments at the end of each round): found by a trial run of the loop whose records are discarded
+        frozen = {}
+        if not getattr(self, "_loop_trial", False) and any(n in st.env and st.env[n].op == "new" for n in carried):
+            snap = (len(self.rec.pops), len(self.rec.calls), len(self.rec.effects), len(self.rec.returns), set(self.rec.loops),
+                    len(self.rec.notes), getattr(self, "_pending_iter_path", None), self.is_generator)
+            self._loop_trial = True
+            try:
+                trial_st = st.copy()
+                self._pending_iter_path = lr.iter_path
+                self._run_loop(kind, s, trial_st, iter_term, body, [], target=target, test_node=test_node, elem_map=elem_map)
+                tl = self.rec.loops[max(k_ for k_ in self.rec.loops if k_ not in snap[4])] if set(self.rec.loops) - snap[4] else None
+                tl = next((l_ for k_, l_ in self.rec.loops.items() if k_ not in snap[4] and l_.parent == lr.parent
+                           and l_.lineno == s.lineno and l_.kind == kind), None)
+                if tl is not None:
+                    for n in carried:
+                        if n in st.env and st.env[n].op == "new":
+                            for f, v0 in st.env[n].a[1]:
+                                w = tl.carried.get(f"{n}.{f}")
+                                if w is not None and w.op == "widen" and all(
+                                        c_ == v0 or (c_.op == "widen" and c_.a[0] == f"{n}.{f}" and c_.a[1] == tl.id and c_.a[2] == (v0,))
+                                        for c_ in w.a[2]) and not any(x.op in ("widen", "elem") and tl.id in x.a[1:2]
+                                                                      for x in walk(v0)):
+                                    frozen[(n, f)] = v0
+            except _Terminated:
+                pass
+            finally:
+                self._loop_trial = False
+                del self.rec.pops[snap[0]:]
+                del self.rec.calls[snap[1]:]
+                del self.rec.effects[snap[2]:]
+                del self.rec.returns[snap[3]:]
+                for k_ in list(self.rec.loops):
+                    if k_ not in snap[4]:
+                        del self.rec.loops[k_]
+                del self.rec.notes[snap[5]:]
+                self._pending_iter_path = None
+                self.is_generator = snap[7]
         for n in carried:
             if n in st.env:
                 init[n] = st.env[n]
                 if st.env[n].op == "new":
                     # an object is carried field by field
-                    st.env[n] = T("new", (st.env[n].a[0], tuple((f, T("widen", (f"{n}.{f}", lid, (v,)))) for f, v in st.env[n].a[1])))
+                    st.env[n] = T("new", (st.env[n].a[0], tuple(
+                        (f, frozen[(n, f)] if (n, f) in frozen else T("widen", (f"{n}.{f}", lid, (v,)))) for f, v in st.env[n].a[1])))
                 else:
                     st.env[n] = T("widen", (n, lid, (st.env[n],)))
         # heap entries that the body may overwrite are dropped (conservative)
@@ -1556,6 +1656,9 @@ class _Frame:
                     and [f for f, _ in vals[0].a[1]] == [f for f, _ in vals[1].a[1]]:
                 fields = []
                 for (f, v0), (_, v1) in zip(vals[0].a[1], vals[1].a[1]):
+                    if (n, f) in frozen and v1 == v0:
+                        fields.append((f, v0))
+                        continue
                     w = T("widen", (f"{n}.{f}", lid, tuple(_dedupe([v0, v1]))))
                     lr.carried[f"{n}.{f}"] = w
                     fields.append((f, w))
@@ -1580,7 +1683,63 @@ class _Frame:
             return res
         return after
 
+    def _filter_fold(self, s):
+        """`for h in HS: G = filter(lambda t, hidden=h: E(t) != hidden, G)` installs one filter per item; together they are
+        `G = filter(lambda t: E(t) not in HS, G)` (HS is read when the loop runs; nothing for an empty HS).  With the loop
+        variable read by the lambda itself (`lambda t: E(t) != h`, late binding) every installed filter compares with the LAST
+        item: `if HS: G = filter(lambda t: E(t) != HS[-1], G)`.  Returns the replacement statement or None."""
+        if s.orelse or len(s.body) != 1 or not isinstance(s.target, ast.Name) or not isinstance(s.iter, ast.Name):
+            return None
+        a = s.body[0]
+        if not (isinstance(a, ast.Assign) and len(a.targets) == 1 and isinstance(a.targets[0], ast.Name)
+                and isinstance(a.value, ast.Call) and isinstance(a.value.func, ast.Name) and a.value.func.id == "filter"
+                and len(a.value.args) == 2 and not a.value.keywords and isinstance(a.value.args[1], ast.Name)
+                and a.value.args[1].id == a.targets[0].id and isinstance(a.value.args[0], ast.Lambda)):
+            return None
+        lam, g, h = a.value.args[0], a.targets[0].id, s.target.id
+        la = lam.args
+        if la.vararg or la.kwarg or la.kwonlyargs or la.posonlyargs or not la.args or g == h or s.iter.id in (g, h):
+            return None
+        n_def = len(la.defaults)
+        plain, defaulted = la.args[:len(la.args) - n_def], la.args[len(la.args) - n_def:]
+        if len(plain) != 1:
+            return None
+        bound = {}
+        for arg_, d_ in zip(defaulted, la.defaults):
+            if not (isinstance(d_, ast.Name) and d_.id == h):
+                return None
+            bound[arg_.arg] = True
+        body = lam.body
+        uses_h = any(isinstance(x, ast.Name) and x.id == h for x in ast.walk(body))
+        uses_g = any(isinstance(x, ast.Name) and x.id == g for x in ast.walk(body))
+        if uses_g or (uses_h and bound) or (not uses_h and not bound):
+            return None
+        if not (isinstance(body, ast.Compare) and len(body.ops) == 1 and isinstance(body.ops[0], ast.NotEq)):
+            return None
+        var_names = set(bound) if bound else {h}
+        l_, r_ = body.left, body.comparators[0]
+        if isinstance(r_, ast.Name) and r_.id in var_names:
+            expr = l_
+        elif isinstance(l_, ast.Name) and l_.id in var_names:
+            expr = r_
+        else:
+            return None
+        if any(isinstance(x, ast.Name) and x.id in var_names for x in ast.walk(expr)):
+            return None
+        t_ = plain[0].arg
+        src = ast.unparse(expr)
+        if bound:
+            new = ast.parse(f"{g} = filter(lambda {t_}: ({src}) not in {s.iter.id}, {g})").body[0]
+        else:
+            new = ast.parse(f"if {s.iter.id}:\n    {g} = filter(lambda {t_}: ({src}) != {s.iter.id}[-1], {g})").body[0]
+        for x in ast.walk(new):
+            ast.copy_location(x, s)
+        return new
+
     def s_For(self, s, st):
+        folded = self._filter_fold(s)
+        if folded is not None:
+            return self.exec_block([folded], st)
         it = self.eval(s.iter, st)
         if it.op == "new":
             # `for x in obj` with a helper class whose __iter__ is a one-loop generator: the generator expression it equals
@@ -2144,6 +2303,25 @@ class _Frame:
 
     def _namedtuple_item(self, v: T, key) -> Optional[T]:
         """v == NT(a, b, c=...) for a module-level `NT = namedtuple('NT', fields)`: the item at position / field `key`."""
+        if v.op == "global" and v.a[0].startswith("pykdebugparser."):
+            # a module-level instance `UNKNOWN = NT(pid=-1, name='')` (immutable, bound once): the call it was made by
+            cache = self.I.__dict__.setdefault("_nt_instance_cache", {})
+            if v.a[0] not in cache:
+                cache[v.a[0]] = None
+                f_ = self.repo.lookup(v.a[0])
+                if f_ and f_[0] == "const" and isinstance(f_[2], ast.Call) and not any(
+                        isinstance(x, (ast.Call, ast.Lambda)) for a_ in list(f_[2].args) + [k.value for k in f_[2].keywords]
+                        for x in ast.walk(a_)):
+                    nm_ = v.a[0].rsplit(".", 1)[1]
+                    stores_ = sum(1 for x in ast.walk(f_[1].tree) if isinstance(x, ast.Name) and x.id == nm_
+                                  and isinstance(x.ctx, (ast.Store, ast.Del)))
+                    dn_ = self.repo.dotted(f_[1], f_[2].func)
+                    if stores_ == 1 and dn_ and self.I.namedtuple_fields(dn_) is not None:
+                        fr_ = _Frame(self.I, f_[1], None, None, Record(), f"{f_[1].name}.<module>", self.depth + 1, self.stack)
+                        cache[v.a[0]] = fr_.eval(f_[2], State({}, {}, ()))
+            if cache[v.a[0]] is None:
+                return None
+            v = cache[v.a[0]]
         if not (v.op == "call" and v.a[0].op == "global" and v.a[0].a[0].startswith("pykdebugparser.")):
             return None
         fields = self.I.namedtuple_fields(v.a[0].a[0])
@@ -2166,6 +2344,15 @@ class _Frame:
                 if isinstance(v_, tuple) and -len(v_) <= idx.a[0] < len(v_) \
                         and isinstance(v_[idx.a[0]], (int, str, bytes, float, bool, type(None))):
                     return const(v_[idx.a[0]])
+        if idx.op == "const" and isinstance(idx.a[0], int) and not isinstance(idx.a[0], bool) and v.op == "slice" and len(v.a) == 3 \
+                and v.a[0].op == "attr" and v.a[0].a[1] == "values" and v.a[1].op == "const" and v.a[2].op == "const":
+            # record.values[1:][0] is record.values[1] (a record has exactly four words)
+            try:
+                picked = list(range(VALUES_ARITY))[slice(v.a[1].a[0], v.a[2].a[0])]
+                if -len(picked) <= idx.a[0] < len(picked):
+                    return T("sub", (v.a[0], const(picked[idx.a[0]])))
+            except TypeError:
+                pass
         if idx.op == "const" and isinstance(idx.a[0], int):
             nt = self._namedtuple_item(v, idx.a[0])
             if nt is not None:
@@ -2244,7 +2431,52 @@ class _Frame:
                     return st.heap.get(v.a[0], v.a[0])      # the object at that path (established to exist)
                 return self.eval(self.I._alias_exprs[v.a[0]], st)
             return v
-        return self.resolve_global(n.id)
+        g = self.resolve_global(n.id)
+        if g.op == "global" and g.a[0].startswith("pykdebugparser.") and isinstance(n.ctx, ast.Load):
+            mo = self._mutable_module_object(g.a[0])
+            if mo is not None:
+                # a module-level helper object whose methods change it (a shared cursor, a scratch buffer): inside this call it
+                # is followed like a local object - but what its fields hold on entry is whatever the previous call left there
+                st.env[n.id] = mo
+                return mo
+        return g
+
+    def _mutable_module_object(self, dotted: str) -> Optional[T]:
+        found = self.repo.lookup(dotted)
+        if not found or found[0] != "const" or not isinstance(found[2], ast.Call) or self.depth >= self.I.inline_depth:
+            return None
+        cache = self.I.__dict__.setdefault("_mutable_module_objects", {})
+        if id(found[2]) in cache:
+            return cache[id(found[2])]
+        cache[id(found[2])] = None
+        cdn = self.repo.dotted(found[1], found[2].func)
+        cf = self.repo.lookup(cdn) if cdn else None
+        if not cf or cf[0] != "class":
+            return None
+        ci: ClassInfo = cf[2]
+        if ci.is_dataclass or ci.enum_kind or "__init__" not in ci.methods or ci.qualname in API_CLASSES \
+                or not all(b in ("object", "builtins.object") for b in ci.bases) or ci.node.decorator_list:
+            return None
+        name = dotted.rsplit(".", 1)[1]
+        if sum(1 for x in ast.walk(found[1].tree) if isinstance(x, ast.Name) and x.id == name
+               and isinstance(x.ctx, (ast.Store, ast.Del))) != 1:
+            return None
+        stored = False
+        for mname, m in ci.methods.items():
+            if mname == "__init__":
+                continue
+            for x in ast.walk(m):
+                if isinstance(x, ast.Attribute) and isinstance(x.ctx, (ast.Store, ast.Del)) and isinstance(x.value, ast.Name) \
+                        and x.value.id == "self":
+                    stored = True
+        if not stored:
+            return None
+        fr = _Frame(self.I, found[1], None, None, Record(), f"{found[1].name}.<module>", self.depth + 1, self.stack)
+        v = fr.eval(found[2], State({}, {}, ()))
+        if v.op == "new":
+            cache[id(found[2])] = T("new", (v.a[0], tuple((k, T("unknown", (f"state left in {name}.{k} by an earlier call",)))
+                                                        for k, _ in v.a[1])))
+        return cache[id(found[2])]
 
     def resolve_global(self, name: str, mod: Optional[ModuleInfo] = None) -> T:
         mod = mod or self.mod
@@ -2359,7 +2591,9 @@ class _Frame:
         if base.op == "new" and isinstance(n.value, ast.Name) and n is not getattr(self, "_callee", None) \
                 and n.value.id in st.env and st.env[n.value.id] == base:
             f_ = self.repo.lookup(base.a[0])
-            if f_ and f_[0] == "class" and n.attr in f_[2].methods and not f_[2].is_dataclass:
+            if f_ and f_[0] == "class" and n.attr in f_[2].methods and not f_[2].is_dataclass \
+                    and not any(ast.unparse(d_) in ("property", "functools.cached_property", "cached_property")
+                                for d_ in f_[2].methods[n.attr].decorator_list):
                 # a bound method of a local helper object taken as a VALUE (stored in a table, handed to a call): whoever holds
                 # it can change the object at any time - from here on nothing is known about the object's fields
                 st.env[n.value.id] = T("new", (base.a[0], tuple((k, T("unknown", (f"escaped:{n.value.id}.{k}",)))
@@ -2384,6 +2618,8 @@ class _Frame:
                     return T("enum", (ci.qualname, name))
                 if name in ci.methods:
                     return T("attr", (base, name))
+                if name == "__name__":
+                    return const(ci.name)
                 cv = self._class_attribute(base.a[0], name)
                 if cv is not None:
                     return cv
@@ -2404,6 +2640,12 @@ class _Frame:
             if name in ("unpack", "unpack_from", "iter_unpack", "pack", "pack_into"):
                 return T("call", (T("global", ("functools.partial",)), (T("global", (f"struct.{name}",)), fmt), ()))
             if name == "size":
+                if fmt.op == "const" and isinstance(fmt.a[0], (str, bytes)) and fmt.a[0][:1] in ("<", ">", "=", "!", b"<", b">", b"=", b"!"):
+                    import struct as _struct            # standard sizes: the same on every host
+                    try:
+                        return const(_struct.calcsize(fmt.a[0]))
+                    except _struct.error:
+                        pass
                 return T("call", (T("global", ("struct.calcsize",)), (fmt,), ()))
             if name == "format":
                 return fmt
@@ -2420,14 +2662,67 @@ class _Frame:
             cv = self._class_attribute(base.a[0], name)
             if cv is not None:
                 return cv
+            f_ = self.repo.lookup(base.a[0])
+            if f_ and f_[0] == "class" and name in f_[2].methods and [ast.unparse(d_) for d_ in f_[2].methods[name].decorator_list] \
+                    == ["property"] and len(f_[2].methods[name].args.args) == 1:
+                # a read-only property of a helper object: the value its getter computes from the object
+                r_ = self.inline_property(f_[2], f_[2].methods[name], base, st)
+                if r_ is not None:
+                    return r_
         if base.op == "ite":
             # distribute attribute access over a conditional object when both sides are constructed objects
+            if self._namedtuple_item(base.a[1], name) is not None and self._namedtuple_item(base.a[2], name) is not None:
+                return T("ite", (base.a[0], self._namedtuple_item(base.a[1], name), self._namedtuple_item(base.a[2], name)))
             if base.a[1].op == "new" or base.a[2].op == "new":
                 return T("ite", (base.a[0], self.attr(base.a[1], name, st, None), self.attr(base.a[2], name, st, None)))
         if node is not None:
             self.rec.pops.append(POp("attr", base, name, st.pc, self.loops, self.trys, self.seq(), self.qualname,
                                      node.lineno, node.col_offset))
         return key
+
+    def _constant_members(self, dotted: str):
+        """The members of a module-level `NAME = frozenset((...))` / tuple of constants, or the keys of a module-level dict
+        literal with constant keys that nothing in its module changes: what `<constant> in NAME` is decided by.  Else None."""
+        cache = self.I.__dict__.setdefault("_constant_members_cache", {})
+        if dotted in cache:
+            return cache[dotted]
+        cache[dotted] = None
+        found = self.repo.lookup(dotted)
+        if not (found and found[0] == "const"):
+            return None
+        node, mod, name = found[2], found[1], dotted.rsplit(".", 1)[1]
+        stores = sum(1 for x in ast.walk(mod.tree) if isinstance(x, ast.Name) and x.id == name and isinstance(x.ctx, (ast.Store, ast.Del)))
+        if stores != 1:
+            return None
+        if isinstance(node, ast.Dict):
+            d_ = self._module_dict_literal(dotted)
+            if d_ is None:
+                # values of any kind: only the keys matter here, and that nothing stores into / deletes from the dict
+                if not (node.keys and all(isinstance(k, ast.Constant) for k in node.keys)):
+                    return None
+                for x in ast.walk(mod.tree):
+                    if isinstance(x, (ast.Subscript, ast.Attribute)) and isinstance(x.ctx, (ast.Store, ast.Del)) \
+                            and isinstance(x.value, ast.Name) and x.value.id == name:
+                        return None
+                    if isinstance(x, ast.Call) and isinstance(x.func, ast.Attribute) and x.func.attr in MUTATORS \
+                            and isinstance(x.func.value, ast.Name) and x.func.value.id == name:
+                        return None
+                cache[dotted] = frozenset(k.value for k in node.keys)
+            else:
+                cache[dotted] = frozenset(k.a[0] for k, _ in d_.a[0])
+            return cache[dotted]
+        inner = node
+        if isinstance(inner, ast.Call) and isinstance(inner.func, ast.Name) and inner.func.id in ("frozenset", "tuple") \
+                and len(inner.args) == 1 and not inner.keywords:
+            inner = inner.args[0]
+        elif isinstance(inner, (ast.List, ast.Set, ast.Call)):
+            return None                 # a list / set can be changed by anyone who imports it
+        if isinstance(inner, (ast.Tuple, ast.List, ast.Set)) and inner.elts:
+            v = consteval.evaluate(self.repo, mod, ast.Tuple(elts=list(inner.elts), ctx=ast.Load()))
+            if v is not consteval.UNKNOWN and isinstance(v, tuple) \
+                    and all(isinstance(x, (int, str, bytes, float, bool, type(None))) for x in v):
+                cache[dotted] = frozenset(v)
+        return cache[dotted]
 
     def _module_dict_literal(self, dotted: str) -> Optional[T]:
         """A module-level `NAME = {'key': function, ...}` of the package that nothing in its module changes afterwards: the
@@ -2459,6 +2754,15 @@ class _Frame:
         if v.op == "dict" and all(k.op == "const" and _const_tree(x) for k, x in v.a[0]):
             cache[dotted] = v
         return cache[dotted]
+
+    def inline_property(self, ci, fnode, recv: T, st: State) -> Optional[T]:
+        self._allow_property = True
+        try:
+            r = self.inline(ci.module, fnode, ci, (), (), st, f"{ci.qualname}.{fnode.name}", recv=recv)
+        finally:
+            self._allow_property = False
+        self._recv_final = None
+        return r
 
     def _class_attribute(self, qualname: str, name: str, depth: int = 0) -> Optional[T]:
         """A constant class-level attribute (`NAME: ClassVar[str] = 'x'` / `NAME = 'x'`) of a package class or its bases."""
@@ -2539,6 +2843,16 @@ class _Frame:
             items = base.a[0]
             if -len(items) <= idx.a[0] < len(items) and not any(i.op == "star" for i in items):
                 return items[idx.a[0]]
+        if idx.op == "const" and isinstance(idx.a[0], int) and not isinstance(idx.a[0], bool) and base.op == "slice" \
+                and len(base.a) == 3 and base.a[0].op == "attr" and base.a[0].a[1] == "values" and base.a[1].op == "const" \
+                and base.a[2].op == "const":
+            # record.values[1:][0] is record.values[1] (a record has exactly four words)
+            try:
+                picked = list(range(VALUES_ARITY))[slice(base.a[1].a[0], base.a[2].a[0])]
+                if -len(picked) <= idx.a[0] < len(picked):
+                    return T("sub", (base.a[0], const(picked[idx.a[0]])))
+            except TypeError:
+                pass
         if idx.op == "const" and isinstance(idx.a[0], int):
             nt = self._namedtuple_item(base, idx.a[0])
             if nt is not None:
@@ -2626,6 +2940,14 @@ class _Frame:
             return None
         if x.op in ("tuple", "list", "dict", "set"):
             kind = x.op
+        elif _container_kind(x) is not None:
+            kind = _container_kind(x)
+        elif _is_record_word(x):
+            kind = "int"            # a word of a record: Kevent.values holds the four unsigned integers unpacked from it
+        elif x.op == "call" and x.a[0] == T("builtin", ("hex",)):
+            kind = "str"
+        elif x.op == "comp" and x.a[0] == "list":
+            kind = "list"
         elif x.op == "fstr":
             kind = "str"
         elif x.op in ("lambda", "func") or (x.op == "call" and x.a[0] == T("global", ("functools.partial",))):
@@ -2929,7 +3251,16 @@ class _Frame:
         items = []
         for k, v in zip(n.keys, n.values):
             if k is None:
-                items.append((T("unknown", ("dict-splat",)), self.eval(v, st)))
+                sv_ = self.eval(v, st)
+                if sv_.op == "dict" and all(kk_.op == "const" for kk_, _ in sv_.a[0]):
+                    for kk_, vv_ in sv_.a[0]:        # **{'k': v}: its pairs, a repeated key keeps its place and takes the value
+                        at_ = [i_ for i_, (k0_, _) in enumerate(items) if k0_ == kk_]
+                        if at_:
+                            items[at_[0]] = (kk_, vv_)
+                        else:
+                            items.append((kk_, vv_))
+                    continue
+                items.append((T("unknown", ("dict-splat",)), sv_))
             else:
                 items.append((self.eval(k, st), self.eval(v, st)))
         return T("dict", (tuple(items),))
@@ -3036,14 +3367,45 @@ class _Frame:
                 folded = _fold_cmp(opname, left.a[0], right.a[0])
             elif right.op in ("tuple", "list") and opname in ("in", "not in") and not right.a[0]:
                 folded = opname == "not in"
+            elif opname in ("in", "not in") and left.op == "const" and right.op == "global" \
+                    and right.a[0].startswith("pykdebugparser."):
+                members_ = self._constant_members(right.a[0])
+                if members_ is not None:
+                    try:
+                        folded = (left.a[0] in members_) == (opname == "in")
+                    except TypeError:
+                        folded = None
             if folded is None and opname in ("is", "is not") and NONE in (left, right):
                 other = right if left == NONE else left
-                if other.op in ("bin", "fstr", "list", "tuple", "dict", "set", "comp", "new", "lambda", "func", "class", "enum") \
+                if _never_none(other):
+                    folded = opname == "is not"
+                elif _is_record_word(other) or other.op in ("bin", "fstr", "list", "tuple", "dict", "set", "comp", "new", "lambda", "func", "class", "enum") \
                         or (other.op == "const" and other.a[0] is not None) \
                         or (other.op == "call" and other.a[0].op == "builtin" and other.a[0].a[0] in _CONSTRUCTORS) \
                         or (other.op == "call" and other.a[0].op == "global" and self.I.namedtuple_fields(other.a[0].a[0]) is not None):
                     folded = opname == "is not"         # the result of arithmetic / a literal / an object is never None
             if folded is None and opname in ("is", "is not"):
+                # `(KNOWN if c else Fresh(...)) is KNOWN` with KNOWN a module-level object: c - an object built on the spot is
+                # never the one that already existed
+                for i_, g_ in ((left, right), (right, left)):
+                    if i_.op == "ite" and g_.op == "global" and g_.a[0].startswith("pykdebugparser."):
+                        def same_(x_):
+                            if x_ == g_:
+                                return True
+                            if x_.op in ("new", "list", "dict", "set", "fstr", "comp") or (
+                                    x_.op == "call" and x_.a[0].op in ("class",)) or (
+                                    x_.op == "call" and x_.a[0].op == "global" and self.I.namedtuple_fields(x_.a[0].a[0]) is not None):
+                                return False
+                            return None
+                        sa_, sb_ = same_(i_.a[1]), same_(i_.a[2])
+                        if sa_ is not None and sb_ is not None and sa_ != sb_:
+                            c_ = i_.a[0] if sa_ else T("not", (i_.a[0],))
+                            folded = c_ if opname == "is" else T("not", (c_,))
+                            break
+                if folded is not None:
+                    parts.append(folded)
+                    left = right
+                    continue
                 # `d.get(k, SENTINEL) is SENTINEL` (SENTINEL = object() at module level, never stored) is `k not in d`
                 for g_, s_ in ((left, right), (right, left)):
                     if self._is_sentinel(s_) and g_.op == "call" and g_.a[0].op == "attr" and g_.a[0].a[1] == "get" \
@@ -3091,7 +3453,15 @@ class _Frame:
         a = n.args
         for p_ in a.posonlyargs + a.args + a.kwonlyargs:
             inner.env[p_.arg] = T("bound", (p_.arg, key))
+        saved = (len(self.rec.pops), len(self.rec.calls), len(self.rec.effects))
         body = self.eval(n.body, inner)
+        if not (a.posonlyargs or a.args or a.kwonlyargs or a.vararg or a.kwarg):
+            # a thunk (`iter(lambda: reader.read(64), b'')`): defining it runs nothing - what its body reads, calls or stores
+            # is recorded when (and where) it is called.  (Bodies of lambdas with parameters stay recorded at the definition:
+            # the stage that applies them per element is where the rules look for them.)
+            del self.rec.pops[saved[0]:]
+            del self.rec.calls[saved[1]:]
+            del self.rec.effects[saved[2]:]
         return T("lambda", (key, body))
 
     def e_NamedExpr(self, n, st):
@@ -3193,7 +3563,7 @@ class _Frame:
         if len(n.generators) != 1 or n.generators[0].is_async or kind == "set":
             return None
         g = n.generators[0]
-        if g.ifs and kind != "list":
+        if g.ifs and kind not in ("list", "gen"):
             return None
         inline = isinstance(g.iter, (ast.Tuple, ast.List)) and 0 < len(g.iter.elts) <= 16 \
             and not any(isinstance(e, ast.Starred) for e in g.iter.elts)
@@ -3236,7 +3606,8 @@ class _Frame:
             if found and found[0] == "const" and isinstance(found[2], (ast.Tuple, ast.List)) and found[2].elts \
                     and len(found[2].elts) <= 64 and all(_literal_seq(e) for e in found[2].elts):
                 items = self.eval(found[2], st)
-            elif found and found[0] == "const" and isinstance(found[2], ast.Tuple) and 0 < len(found[2].elts) <= 16 and enumerated \
+            elif found and found[0] == "const" and isinstance(found[2], ast.Tuple) and 0 < len(found[2].elts) <= 16 \
+                    and (enumerated or all(isinstance(e, ast.Name) for e in found[2].elts)) \
                     and all(isinstance(e, (ast.Name, ast.Attribute)) for e in found[2].elts):
                 # a module-level tuple of callables (`(socket.AddressFamily, socket.SocketKind)`) paired with positions
                 fr_ = _Frame(self.I, found[1], self.fnode, None, Record(), f"{found[1].name}.<module>", self.depth + 1, self.stack)
@@ -3281,16 +3652,25 @@ class _Frame:
             inner = State(dict(st.env), st.heap, st.pc)
             self.bind(g.target, item, inner, n, record=False)
             conds = []
+            dropped = False
             for c in g.ifs:
                 ct = self.eval(c, inner)
+                tv_ = truth(ct)
+                if tv_ is True:
+                    continue            # settled for this item
+                if tv_ is False:
+                    dropped = True
+                    break
                 conds.append(ct)
                 inner.pc = inner.pc + ((ct, True),)
+            if dropped:
+                continue
             elts = tuple(self.eval(e, inner) for e in elt_nodes)
             one = elts[0] if len(elts) == 1 else T("tuple", (elts,))
             out.append(one)
             if g.ifs:
                 # kept items in order: the list the equivalent `if c: acc.append(x)` statements build
-                nxt = T("mut", (acc, "append", (one,)))
+                nxt = T("list", (acc.a[0] + (one,),)) if (acc.op == "list" and not conds) else T("mut", (acc, "append", (one,)))
                 for ct in reversed(conds):
                     nxt = T("ite", (ct, nxt, acc))
                 acc = nxt
@@ -3508,6 +3888,14 @@ class _Frame:
                                 f"{self.self_cls.qualname}.{name}", recv=recv)
                 if r is not None:
                     return r
+                m_ = self.self_cls.methods[name]
+                if any(isinstance(x, ast.Yield) for x in ast.walk(m_)):
+                    # a generator method that is one filtering / mapping loop over its argument: the generator expression
+                    static_ = any(ast.unparse(d_) == "staticmethod" for d_ in m_.decorator_list)
+                    g = self._generator_as_comp(self.self_cls.module, m_, tuple(args) if static_ else (recv,) + tuple(args),
+                                                kwargs, st, cls=self.self_cls)
+                    if g is not None:
+                        return g
                 return opaque
             if recv.op == "new":
                 ci = self.repo.lookup(recv.a[0])[2]
@@ -3627,6 +4015,22 @@ class _Frame:
                 except Exception:
                     pass
             return opaque
+        # ---- functools.reduce(f, (a, b, c)[, init]) over a short literal / module-level tuple: f(f(a, b), c)
+        if func.op == "global" and func.a[0] == "functools.reduce" and len(args) in (2, 3) and not kwargs:
+            seq = args[1]
+            if seq.op == "global" and seq.a[0].startswith("pykdebugparser."):
+                f_ = self.repo.lookup(seq.a[0])
+                if f_ and f_[0] == "const" and isinstance(f_[2], ast.Tuple) and 0 < len(f_[2].elts) <= 16 \
+                        and all(isinstance(e_, (ast.Name, ast.Attribute)) for e_ in f_[2].elts):
+                    fr_ = _Frame(self.I, f_[1], self.fnode, None, Record(), f"{f_[1].name}.<module>", self.depth + 1, self.stack)
+                    seq = fr_.eval(f_[2], State({}, {}, ()))
+            if seq.op in ("tuple", "list") and 0 < len(seq.a[0]) <= 16 and not any(i.op == "star" for i in seq.a[0]) \
+                    and self.depth < self.I.inline_depth:
+                items_ = list(seq.a[0])
+                acc_ = args[2] if len(args) == 3 else items_.pop(0)
+                for it_ in items_:
+                    acc_ = self.call(args[0], (acc_, it_), (), st, node)
+                return acc_
         # ---- builtins
         if func.op == "global" and func.a[0] in ("operator.attrgetter", "operator.itemgetter", "operator.methodcaller") \
                 and args and not kwargs and all(a.op == "const" for a in args):
@@ -3706,6 +4110,27 @@ class _Frame:
             return opaque
         return opaque
 
+    def _pure_expression(self, mod: ModuleInfo, node) -> bool:
+        """Names, attributes, constants, operators, subscripts - and calls of builtins without effects or of module-level
+        functions of the package whose whole body is `return <such an expression>`."""
+        for x in ast.walk(node):
+            if isinstance(x, (ast.Yield, ast.YieldFrom, ast.Await, ast.NamedExpr, ast.Lambda, ast.ListComp, ast.GeneratorExp,
+                              ast.SetComp, ast.DictComp)):
+                return False
+            if isinstance(x, ast.Call):
+                if isinstance(x.func, ast.Name) and x.func.id in ("len", "int", "str", "hex", "bool", "abs", "min", "max", "isinstance",
+                                                                  "tuple", "frozenset", "bytes") and x.func.id not in mod.functions:
+                    continue
+                dn = self.repo.dotted(mod, x.func) if isinstance(x.func, (ast.Name, ast.Attribute)) else None
+                f = self.repo.lookup(dn) if dn and dn.startswith("pykdebugparser.") else None
+                if not (f and f[0] == "func"):
+                    return False
+                body = [b for b in f[2].body if not (isinstance(b, ast.Expr) and isinstance(b.value, ast.Constant))]
+                if not (len(body) == 1 and isinstance(body[0], ast.Return) and body[0].value is not None
+                        and not any(isinstance(y, ast.Call) for y in ast.walk(body[0].value))):
+                    return False
+        return True
+
     def _generator_as_comp(self, mod: ModuleInfo, fnode, args: tuple, kwargs: tuple, st: State, cls=None) -> Optional[T]:
         """A generator function whose body is one loop that yields under conditions,
 
@@ -3715,7 +4140,8 @@ class _Frame:
                         yield e(x)
 
         called with arguments, is the generator expression (e(x) for x in xs if c(x, k)) over those arguments."""
-        if self.depth >= self.I.inline_depth or id(fnode) in self.stack or fnode.decorator_list:
+        if self.depth >= self.I.inline_depth or id(fnode) in self.stack \
+                or any(ast.unparse(d_) != "staticmethod" for d_ in fnode.decorator_list):
             return None
         if any(a.op == "star" for a in args) or any(k == "**" for k, _ in kwargs):
             return None
@@ -3725,7 +4151,44 @@ class _Frame:
             return None
         loop = body[0]
         conds = []
-        inner = loop.body
+        inner = list(loop.body)
+        # iteration-local names computed first (`cls = kdbg_class(event.eventid)`) are written out where they are used
+        local_defs = {}
+        while len(inner) > 1 and isinstance(inner[0], ast.Assign) and len(inner[0].targets) == 1 \
+                and isinstance(inner[0].targets[0], ast.Name) and not any(
+                    isinstance(x, (ast.Yield, ast.YieldFrom, ast.Await, ast.NamedExpr, ast.Lambda)) for x in ast.walk(inner[0].value)):
+            nm_ = inner[0].targets[0].id
+            if nm_ in local_defs or any(isinstance(x, ast.Name) and x.id == nm_ for x in ast.walk(loop.target)):
+                return None
+            if not self._pure_expression(mod, inner[0].value):
+                return None         # (the expression is written out at every use: it must not do anything but compute)
+            local_defs[nm_] = _subst_names(inner[0].value, local_defs)
+            inner = inner[1:]
+        if local_defs:
+            if any(isinstance(x, ast.Name) and x.id in local_defs and isinstance(x.ctx, ast.Store) for b_ in inner for x in ast.walk(b_)):
+                return None
+            inner = [_subst_names(b_, local_defs) for b_ in inner]
+        if len(inner) == 1 and isinstance(inner[0], ast.If) and inner[0].orelse:
+            # if a: yield x / elif b: yield x: the branches exclude each other, x is yielded once when a or b
+            tests, cur_, elt_src = [], inner[0], None
+            while True:
+                if not (len(cur_.body) == 1 and isinstance(cur_.body[0], ast.Expr) and isinstance(cur_.body[0].value, ast.Yield)
+                        and cur_.body[0].value.value is not None):
+                    return None
+                src_ = ast.unparse(cur_.body[0].value.value)
+                if elt_src is not None and src_ != elt_src:
+                    return None
+                elt_src = src_
+                tests.append(cur_.test)
+                if not cur_.orelse:
+                    break
+                if len(cur_.orelse) == 1 and isinstance(cur_.orelse[0], ast.If):
+                    cur_ = cur_.orelse[0]
+                    continue
+                return None
+            merged = ast.copy_location(ast.If(test=ast.copy_location(ast.BoolOp(op=ast.Or(), values=tests), inner[0]),
+                                              body=inner[0].body, orelse=[]), inner[0])
+            inner = [merged]
         while len(inner) == 1 and isinstance(inner[0], ast.If) and not inner[0].orelse:
             conds.append(inner[0].test)
             inner = inner[0].body
@@ -3776,8 +4239,10 @@ class _Frame:
             return None
         for d in fnode.decorator_list:
             dn = ast.unparse(d)
-            if dn not in ("staticmethod", "classmethod") and not (cls is None and self.I.decorators_return_function(mod, fnode)):
+            if dn not in ("staticmethod", "classmethod") and not (dn == "property" and getattr(self, "_allow_property", False)) \
+                    and not (cls is None and self.I.decorators_return_function(mod, fnode)):
                 return None
+        self._allow_property = False
         mod = getattr(self.repo, "fn_home", {}).get(id(fnode), mod)
         fr = _Frame(self.I, mod, fnode, cls, self.rec, qualname, self.depth + 1, self.stack + (id(fnode),),
                     base_pc=st.pc, base_loops=self.loops, base_trys=self.trys)
